@@ -449,6 +449,12 @@ def service_stop_on_exit(ctx):
                   "the stop function does not kill and then reap the service process")
 
 
+def _service_side(r, view):
+    """is this spawn site part of a service actor's code (reachable from a service actor through the call graph)?"""
+    svc = [a.name for a in r.actors() if "Service" in r.actor_kinds(a)]
+    return view.name in r.f.cg.reach(svc) or view.name in svc
+
+
 @rule("C10.SPAWN-OWNED", ["C10"], """every spawned shell is owned: a build shell is a local covered by the cancellation arm, a service shell is stored in the slot emptied by the stop function""", "K4", floor=2)
 def spawn_owned(ctx):
     r = ctx.r
@@ -463,6 +469,24 @@ def spawn_owned(ctx):
             arms = arm_by_payload(b, lambda p: "BuildCancellationMessage" in p)
             covered = any(is_process_kill(kt["callee"]["base"]) and kb in arm.region and _refers(b, operand_local(kt["args"][0]), fl) for arm in arms for kb, kt in b.calls())
             ctx.check(covered, f"{short(b.name)}/build-shell", [site(b, bb)], "the spawned build shell is not the child killed by the cancellation arm")
+            # ... and once the shell exists the runner returns only after it ended: through the arm that observed its exit status, or past an awaited wait
+            start = None
+            cands = [(tb, ce) for (tb, sb, ce, be) in try_edges(b) if ce is not None and operand_local(b.term(tb)["args"][0]) in fl]
+            for (tb, ce) in cands:
+                if all(b.dominates(tb, tb2) for (tb2, _) in cands):
+                    start = ce.dst
+            if start is None:
+                start = t["target"]
+            safe = {arm.edge.dst for arm in select_arms(b) if "ExitStatus" in (arm.payload or "")}
+            safe |= {a.ready_bb for a in awaits(b) if a.callee and a.callee.endswith("Child::status") and a.ready_bb is not None}
+            reach = (b.reach_from(start, avoid=tuple(safe)) | {start}) - safe
+            leaks = sorted(x for x in reach if b.term(x)["k"] == "return")
+            ctx.check(not leaks, f"{short(b.name)}/build-shell-reaped", [site(b, bb)],
+                      "after the build shell was spawned the runner can return without having waited for its end (an early `return` between the spawn and the select): the shell outlives the run")
+        elif not _service_side(r, b):
+            # a shell run by a helper (e.g. to capture a command's output): it is owned when the function that spawned it awaits its end
+            waited = any(re.search(r"Child::(status|output)$", wt["callee"]["base"]) and is_awaited(b, wb) and _refers(b, operand_local(wt["args"][0]), fl) for wb, wt in b.calls())
+            ctx.check(waited, f"{short(b.name)}/helper-shell", [site(b, bb)], "a helper spawns a shell and does not await its end")
         else:
             slot_writes = [(x["id"], st) for x in b.normal_blocks() for st in x["stmts"] if st["lhs"]["proj"] and st["lhs"]["proj"][-1]["k"] == "field" and st["lhs"]["proj"][-1]["name"] == "service_process"]
             stored = [x for (x, st) in slot_writes if any(operand_local(o) in fl for o in ([st["rv"]["op"]] if st["rv"]["k"] == "use" else st["rv"].get("ops", [])))]
@@ -752,7 +776,7 @@ def stop_dominates_spawn(ctx):
     stops = {r.fn_of(s).name for s in stop_fns(ctx)}
     n = 0
     for (b, bb, t) in r.spawn_sites():
-        if r.is_role(r.script_runners(), b) or not t["callee"]["base"].endswith("Command::spawn"):
+        if r.is_role(r.script_runners(), b) or not t["callee"]["base"].endswith("Command::spawn") or not _service_side(r, b):
             continue
         n += 1
         aw = [a for a in awaits(b) if a.callee in stops and a.ready_bb is not None and b.dominates(a.ready_bb, bb)]
